@@ -229,6 +229,14 @@ def cases(seed, tier):
         out.append(dict(kernel=kernel, boundary="hard-interior", factor=["gauss", 0.5, r.choice([0.05, 0.08])], beta=r.choice([0.5, 1.0]), d=d, K=K, nu=r.choice([5.0, 1e6]), mean_outside=False, scale=1.0,
                         sigma=None, ms_seed=r.randrange(2**31), seed=sch.np_seed(f"c03as.{k}") % (2**31), M=100000 if tier == "quick" else 200000, calls=40, mismatch=mm,
                         multi=True, n_steps=r.choice([4, 6]), n_max_steps=r.choice([10, 20]), **({"companion": ["gauss", 0.5, 0.1]} if d > 1 else {})))
+    # near-singular scale matrices: a direction whose posterior standard deviation is 1e-5 .. 1e-4 of the prior range, fitted exactly by its mode; whatever the
+    # kernel derives from the scale matrix (factor for the noise, inverse for the acceptance ratio) must describe the same matrix to much better than that
+    tight = [("tpcn", 1, 1e-5), ("tpcn", 2, 1e-5), ("rwm", 1, 1e-5), ("tpcn", 1, 1e-4)]
+    for k, (kernel, d, sd) in enumerate(tight if tier == "quick" else tight * 4):
+        r = random.Random(sch.np_seed(f"c03.tight{k}"))
+        out.append(dict(kernel=kernel, boundary="hard-interior", factor=["gauss", round(r.uniform(0.3, 0.7), 3), sd], beta=r.choice([0.5, 1.0]), d=d, K=1, nu=r.choice([7.0, 1e6]), mean_outside=False, scale=1.0,
+                        sigma=None, ms_seed=r.randrange(2**31), seed=sch.np_seed(f"c03ts.{k}") % (2**31), M=100000 if tier == "quick" else 200000, calls=40, mismatch=[(0.0, 1.0)],
+                        **({"companion": ["gauss", 0.5, 0.1]} if d > 1 else {})))
     return out
 
 
